@@ -12,7 +12,11 @@
 (* OBLIGATIONS (term language of MatTerms / DESIGN 4.2) over what the      *)
 (* harness observes on the real objects: normalisation to 100 %,           *)
 (* proportionality, invariance under a common scaling of the proportions,  *)
-(* duality number fractions <-> mass fractions.  The component masses      *)
+(* duality number fractions <-> mass fractions; and the same again after    *)
+(* every way the API changes or exposes a composite: add() of a component   *)
+(* that is already there, a + b of composites with common components (the   *)
+(* operands stay what they were), and a caller converting the quantities    *)
+(* the object reports, in place, to other units.  The component masses      *)
 (* enter as OBSERVED values (obs(A.m.i)); their correctness is C10.        *)
 (*                                                                         *)
 (* MACHINE: transcription of Composite._norm and Composite._data           *)
@@ -44,32 +48,39 @@ IdealX(mode, ps, ms) ==        \* [x |-> <<..>>, X |-> <<..>>] in percent
   IN  [x |-> [i \in 1..k |-> QMul(QI(100), QDiv(a[i], sa))],
        X |-> [i \in 1..k |-> QMul(QI(100), QDiv(am[i], sm))]]
 
-\* machine: Composite._norm / _data
-MachX(mode, ps, ms, mut) ==
+\* machine: Composite._norm / _data.
+\*   ps    the proportions of the components now
+\*   pn    the proportions at the last re-normalisation (= ps in the code as it is: add() always re-normalises)
+\*   pert  the caller has converted the reported component masses, in place, to another unit (factor 1/1000)
+MachX(mode, ps, pn, ms, pert, mut) ==
   LET k == Len(ps)
-      norm  == IF mode = "MASS_FRACTION" /\ mut # "mass_mode_as_number"
-               THEN QSumSeq([i \in 1..k |-> QDiv(ps[i], ms[i])])           \* proportion_norm = sum p/m
-               ELSE QSumSeq(ps)                                            \* proportion_norm = sum p
-      cmass == IF mode = "MASS_FRACTION" /\ mut # "mass_mode_as_number"
-               THEN QSumSeq(ps)                                            \* composite_mass = sum p (a bare number)
-               ELSE IF mut = "X_wrong_sum" THEN QSumSeq(ps)
-               ELSE QSumSeq([i \in 1..k |-> QMul(ps[i], ms[i])])          \* composite_mass = sum p m
-      x(i) == IF mode = "MASS_FRACTION" /\ mut # "mass_mode_as_number"
-              THEN QDiv(QDiv(ps[i], ms[i]), norm)
+      psn == IF mut = "stale_norm" THEN pn ELSE ps
+      \* the component mass as the bare number it currently has (the code computes with unit-aware quantities)
+      mm  == IF mut = "mass_unit_blind" /\ pert THEN [i \in 1..k |-> QDiv(ms[i], QI(1000))] ELSE ms
+      massmode == mode = "MASS_FRACTION" /\ mut # "mass_mode_as_number"
+      norm  == IF massmode
+               THEN QSumSeq([i \in 1..k |-> QDiv(psn[i], mm[i])])         \* proportion_norm = sum p/m
+               ELSE QSumSeq(psn)                                           \* proportion_norm = sum p
+      cmass == IF massmode
+               THEN QSumSeq(psn)                                           \* composite_mass = sum p (a bare number)
+               ELSE IF mut = "X_wrong_sum" THEN QSumSeq(psn)
+               ELSE QSumSeq([i \in 1..k |-> QMul(psn[i], ms[i])])        \* composite_mass = sum p m
+      x(i) == IF massmode
+              THEN QDiv(QDiv(ps[i], mm[i]), norm)
               ELSE IF mut = "x_unnormalised" THEN QDiv(ps[i], QI(100)) ELSE QDiv(ps[i], norm)
-      X(i) == IF mode = "MASS_FRACTION" /\ mut # "mass_mode_as_number"
+      X(i) == IF massmode
               THEN QDiv(ps[i], cmass)
               ELSE QDiv(QMul(ps[i], ms[i]), cmass)
   IN  [x |-> [i \in 1..k |-> QMul(QI(100), x(i))], X |-> [i \in 1..k |-> QMul(QI(100), X(i))]]
 
 ---------------------------------------------------------------------------
 \* observation environment of one object named nm
-ObjEnv(nm, ps, ms, fr) ==
+ObjEnv(nm, ms, fr) ==
      EnvSeq("obs:" \o nm \o ".m.", ms, 1)
   @@ EnvSeq("obs:" \o nm \o ".x.", fr.x, 1) @@ EnvSeq("obs:" \o nm \o ".X.", fr.X, 1)
   @@ (("obs:" \o nm \o ".sum.x") :> QSumSeq(fr.x)) @@ (("obs:" \o nm \o ".sum.X") :> QSumSeq(fr.X))
 
-\* obligations on one object whose given proportions are the terms props[i]
+\* obligations on one object whose proportions are the terms props[i]
 SingleObl(nm, mode, props) ==
   LET k == Len(props)
       x(i) == Obs(nm \o ".x." \o IStr(i))    X(i) == Obs(nm \o ".X." \o IStr(i))
@@ -83,7 +94,7 @@ SingleObl(nm, mode, props) ==
           ELSE << Approx("x~p", Mul(x(i), SumOf(p)), Mul(Q(100, 1), p(i))),
                   Approx("X~pm", Mul(X(i), SumOf(LAMBDA j : Mul(p(j), m(j)))), Mul(Q(100, 1), Mul(p(i), m(i)))) >>)
          \o Per(i + 1)
-  IN  << Approx("sum x = 100", SumOf(x), Q(100, 1)), Approx("sum X = 100", SumOf(X), Q(100, 1)),
+  IN  << Approx(nm \o ": sum x = 100", SumOf(x), Q(100, 1)), Approx(nm \o ": sum X = 100", SumOf(X), Q(100, 1)),
          Approx("row sum.x = 100", Obs(nm \o ".sum.x"), Q(100, 1)), Approx("row sum.X = 100", Obs(nm \o ".sum.X"), Q(100, 1)) >>
       \o Per(1)
 \* two objects report the same fractions
@@ -94,66 +105,107 @@ SameObl(name, a, b, k) ==
                    Approx(name \o ": same X", Obs(b \o ".X." \o IStr(i)), Obs(a \o ".X." \o IStr(i))) >> \o Per(i + 1)
   IN  Per(1)
 
-\* the objects of a scenario: how B's proportions derive from A
+(***************************************************************************)
+(* The objects of a scenario, in the order in which the harness makes and  *)
+(* observes them.  how:                                                    *)
+(*   build    constructed from props, then steps (add(component i, q))     *)
+(*   sum      of[1] + of[2]                                                *)
+(*   perturb  the object of[1] after the caller converted every quantity   *)
+(*            it reports, in place, to another unit                        *)
+(*   again    the object of[1] observed once more (operands of a sum)      *)
+(* eff are the proportions the object then has (terms): what the           *)
+(* obligations speak about.                                                *)
+(***************************************************************************)
 Other(mode) == IF mode = "MASS_FRACTION" THEN "NUMBER_FRACTION" ELSE "MASS_FRACTION"
+Obj(name, how, cls, mode, props, steps, of, eff) ==
+  [name |-> name, how |-> how, cls |-> cls, mode |-> mode, props |-> props, steps |-> steps, of |-> of, eff |-> eff]
 Objects(sc, k) ==
-  LET A == [name |-> "A", cls |-> sc.cls, mode |-> sc.mode, props |-> [i \in 1..k |-> Inp("A.p." \o IStr(i))]]
+  LET pA == [i \in 1..k |-> Inp("A.p." \o IStr(i))]
+      pB == [i \in 1..k |-> Inp("B.p." \o IStr(i))]
+      A  == Obj("A", "build", sc.cls, sc.mode, pA, <<>>, <<>>, pA)
+      J  == IF sc.j = 1 THEN 1 ELSE k
   IN  CASE sc.kind = "single" -> <<A>>
-        [] sc.kind = "scaled" -> <<A, [name |-> "B", cls |-> sc.cls, mode |-> sc.mode,
-                                       props |-> [i \in 1..k |-> Mul(Inp("A.p." \o IStr(i)), Q(sc.scale[1], sc.scale[2]))]]>>
-        [] sc.kind = "dual"   -> <<A, [name |-> "B", cls |-> "material", mode |-> Other(sc.mode),
-                                       props |-> [i \in 1..k |-> IF sc.mode = "MASS_FRACTION" THEN Obs("A.x." \o IStr(i))
-                                                                  ELSE Obs("A.X." \o IStr(i))]]>>
+        [] sc.kind = "scaled" ->
+             LET ps == [i \in 1..k |-> Mul(pA[i], Q(sc.scale[1], sc.scale[2]))]
+             IN  <<A, Obj("B", "build", sc.cls, sc.mode, ps, <<>>, <<>>, ps)>>
+        [] sc.kind = "dual" ->
+             LET pd == [i \in 1..k |-> IF sc.mode = "MASS_FRACTION" THEN Obs("A.x." \o IStr(i)) ELSE Obs("A.X." \o IStr(i))]
+             IN  <<A, Obj("B", "build", "material", Other(sc.mode), pd, <<>>, <<>>, pd)>>
+        [] sc.kind = "add_existing" ->           \* a component that is already there is topped up after construction
+             << Obj("A", "build", sc.cls, sc.mode, pA, <<[i |-> J, q |-> Inp("A.q")]>>, <<>>,
+                    [i \in 1..k |-> IF i = J THEN Add(pA[i], Inp("A.q")) ELSE pA[i]]) >>
+        [] sc.kind = "sum_overlap" ->            \* a + b of two composites with the same components
+             << A, Obj("B", "build", sc.cls, sc.mode, pB, <<>>, <<>>, pB),
+                Obj("R", "sum", sc.cls, sc.mode, <<>>, <<>>, <<"A", "B">>, [i \in 1..k |-> Add(pA[i], pB[i])]),
+                Obj("A2", "again", sc.cls, sc.mode, <<>>, <<>>, <<"A">>, pA),
+                Obj("B2", "again", sc.cls, sc.mode, <<>>, <<>>, <<"B">>, pB) >>
+        [] sc.kind = "perturbed" ->
+             << A, Obj("P", "perturb", sc.cls, sc.mode, <<>>, <<>>, <<"A">>, pA) >>
 Obligations(sc, k) ==
-  LET objs == Objects(sc, k) IN
-  SingleObl("A", sc.mode, objs[1].props)
-  \o (IF sc.kind = "scaled" THEN SingleObl("B", sc.mode, objs[2].props) \o SameObl("scaling", "A", "B", k)
-      ELSE IF sc.kind = "dual" THEN SingleObl("B", Other(sc.mode), objs[2].props) \o SameObl("duality", "A", "B", k)
-      ELSE <<>>)
+  LET objs == Objects(sc, k)
+      RECURSIVE Each(_)
+      Each(i) == IF i > Len(objs) THEN <<>> ELSE SingleObl(objs[i].name, objs[i].mode, objs[i].eff) \o Each(i + 1)
+  IN  Each(1)
+      \o (CASE sc.kind = "scaled"      -> SameObl("scaling", "A", "B", k)
+             [] sc.kind = "dual"        -> SameObl("duality", "A", "B", k)
+             [] sc.kind = "sum_overlap" -> SameObl("operand unchanged", "A", "A2", k) \o SameObl("operand unchanged", "B", "B2", k)
+             [] sc.kind = "perturbed"   -> SameObl("unit of a reported quantity changed", "A", "P", k)
+             [] OTHER -> <<>>)
 
-\* environment of a whole scenario; F(mode, ps, ms) yields the fractions (ideal or machine)
-ScEnv(sc, ps, ms, F(_, _, _)) ==
+\* environment of a whole scenario; F(mode, ps, pn, ms, pert) yields the fractions (ideal or machine)
+ScEnv(sc, ps, ms, F(_, _, _, _, _)) ==
   LET k    == Len(ps)
       objs == Objects(sc, k)
-      inA  == EnvSeq("inp:A.p.", ps, 1)
-      eA   == inA @@ ObjEnv("A", ps, ms, F(sc.mode, ps, ms))
-  IN  IF Len(objs) = 1 THEN eA
-      ELSE LET pB == EvalSeq(objs[2].props, eA)
-           IN  eA @@ ObjEnv("B", pB, ms, F(objs[2].mode, pB, ms))
+      inp  == EnvSeq("inp:A.p.", ps, 1) @@ EnvSeq("inp:B.p.", [i \in 1..k |-> ps[k + 1 - i]], 1) @@ ("inp:A.q" :> <<2, 1>>)
+      RECURSIVE Go(_, _)
+      Go(i, env) ==
+        IF i > Len(objs) THEN env
+        ELSE LET o   == objs[i]
+                 eff == EvalSeq(o.eff, env)
+                 \* the proportions in force when the norms were last derived, if add() of an existing
+                 \* component did not re-derive them: before the step / after the first operand's components
+                 pn  == IF o.how = "build" /\ o.steps # <<>> THEN EvalSeq(o.props, env)
+                        ELSE IF o.how = "sum" THEN EvalSeq(objs[1].eff, env) ELSE eff
+             IN  Go(i + 1, env @@ ObjEnv(o.name, ms, F(o.mode, eff, pn, ms, o.how = "perturb")))
+  IN  Go(1, inp)
 
 ---------------------------------------------------------------------------
-NoSc == [kind |-> "none", cls |-> "", mode |-> "", scale |-> <<1, 1>>]
+NoSc == [kind |-> "none", cls |-> "", mode |-> "", scale |-> <<1, 1>>, j |-> 0]
 Scenarios ==
   LET cm == {<<"substance", "NUMBER">>} \cup {<<"material", md>> : md \in Modes}
-  IN  {[kind |-> "single", cls |-> c[1], mode |-> c[2], scale |-> <<1, 1>>] : c \in cm}
-      \cup {[kind |-> "scaled", cls |-> c[1], mode |-> c[2], scale |-> s] : c \in cm, s \in Scales}
-      \cup {[kind |-> "dual", cls |-> "material", mode |-> md, scale |-> <<1, 1>>] : md \in {"NUMBER_FRACTION", "MASS_FRACTION"}}
+      S(kd, c, s, j) == [kind |-> kd, cls |-> c[1], mode |-> c[2], scale |-> s, j |-> j]
+  IN  {S("single", c, <<1, 1>>, 0) : c \in cm}
+      \cup {S("scaled", c, s, 0) : c \in cm, s \in Scales}
+      \cup {S("dual", <<"material", md>>, <<1, 1>>, 0) : md \in {"NUMBER_FRACTION", "MASS_FRACTION"}}
+      \cup {S("add_existing", c, <<1, 1>>, j) : c \in cm, j \in {1, 2}}      \* the first / the last component
+      \cup {S("sum_overlap", c, <<1, 1>>, 0) : c \in cm}
+      \cup {S("perturbed", c, <<1, 1>>, 0) : c \in cm}
 
 VARIABLES comps, sc
 Init == comps = <<>> /\ sc = NoSc
 Next == /\ sc = NoSc
         /\ \/ Len(comps) < MaxK /\ \E p \in PVals, m \in MVals : comps' = Append(comps, [p |-> p, m |-> m]) /\ UNCHANGED sc
-           \/ Len(comps) >= 1 /\ \E s \in Scenarios : sc' = s /\ UNCHANGED comps
+           \/ Len(comps) >= 1 /\ \E s \in Scenarios : (s.j = 2 => Len(comps) >= 2) /\ sc' = s /\ UNCHANGED comps
 
 Ps == [i \in 1..Len(comps) |-> QI(comps[i].p)]
 Ms == [i \in 1..Len(comps) |-> QI(comps[i].m)]
-Ideal3(md, ps, ms) == IdealX(md, ps, ms)
-Mach3(md, ps, ms)  == MachX(md, ps, ms, "")
+Ideal5(md, ps, pn, ms, pert) == IdealX(md, ps, ms)
+Mach5(md, ps, pn, ms, pert)  == MachX(md, ps, pn, ms, pert, "")
 
 Tags(s, k) == {s.kind, s.cls, s.mode, "k" \o IStr(k)}
-Record == [kind |-> sc.kind, cls |-> sc.cls, mode |-> sc.mode, k |-> Len(comps), scale |-> sc.scale,
+Record == [kind |-> sc.kind, cls |-> sc.cls, mode |-> sc.mode, k |-> Len(comps), scale |-> sc.scale, j |-> sc.j,
            p |-> [i \in 1..Len(comps) |-> comps[i].p], objects |-> Objects(sc, Len(comps)),
            obl |-> Obligations(sc, Len(comps)), tags |-> Tags(sc, Len(comps))]
 
 Sound ==
   sc # NoSc =>
     LET os == Obligations(sc, Len(comps)) IN
-    /\ AllHoldQ(os, ScEnv(sc, Ps, Ms, Ideal3))                 \* the obligations are theorems of the ideal formulas
-    /\ AllHoldQ(os, ScEnv(sc, Ps, Ms, Mach3))                  \* and the transcribed algorithm satisfies them
+    /\ AllHoldQ(os, ScEnv(sc, Ps, Ms, Ideal5))                 \* the obligations are theorems of the ideal formulas
+    /\ AllHoldQ(os, ScEnv(sc, Ps, Ms, Mach5))                  \* and the transcribed algorithm satisfies them
     /\ \A mu \in Mutants :                                     \* whatever differs from the ideal values is noticed
-          LET MutF(md, ps, ms) == MachX(md, ps, ms, mu)
+          LET MutF(md, ps, pn, ms, pert) == MachX(md, ps, pn, ms, pert, mu)
               e == ScEnv(sc, Ps, Ms, MutF)
-          IN  e # ScEnv(sc, Ps, Ms, Ideal3) => ~AllHoldQ(os, e)
+          IN  e # ScEnv(sc, Ps, Ms, Ideal5) => ~AllHoldQ(os, e)
     \* one record per structure and proportion vector (the model masses do not reach the harness)
     /\ (Emit /\ \A i \in 1..Len(comps) : comps[i].m = ((i - 1) % Cardinality(MVals)) + 1) => PrintT(ToJson(Record))
 =============================================================================
